@@ -88,15 +88,36 @@ class SObj(Model):
         if isinstance(op, ast.Mult):
             if isinstance(other, (int, Fraction)) and not isinstance(other, bool):
                 if eng.branch(self.tag == TAG_ZERO):
-                    return self  # Zero.__mul__ returns self (only zero * x is defined; x * zero is not)
+                    if reflected and not _zero_has("__rmul__"):
+                        raise PyRaise(SExc("TypeError", ("unsupported operand type(s) for *: 'int' and 'Zero'",)))   # x * zero needs Zero.__rmul__
+                    return self  # Zero.__mul__ / __rmul__ return self
                 if eng.branch(self.tag == TAG_VAL):
                     return SObj(TAG_VAL, self.nf.scale(other))
-                raise PyRaise(SExc("TypeError", ("unsupported operand type(s) for *",)))
+                raise PyRaise(SExc("TypeError", ("unsupported operand type(s) for *",), tag="sentinel-arith"))
             raise Unsupported(f"element value * {other!r}")
         return NotImplemented
 
     def m_truth(self, eng):
         raise Unsupported("truth value of an element value")
+
+
+_ZERO_MEMBERS = {}
+
+
+def _zero_has(name):
+    """does series.Zero of the tree under check define `name` (as a method or as an alias in a chained assignment)?"""
+    from . import frontend
+    key = frontend.REPO
+    if key not in _ZERO_MEMBERS:
+        cls = frontend.find("series", "Zero")
+        names = set()
+        for st in cls.body:
+            if isinstance(st, ast.FunctionDef):
+                names.add(st.name)
+            elif isinstance(st, ast.Assign):
+                names |= {t.id for t in st.targets if isinstance(t, ast.Name)}
+        _ZERO_MEMBERS[key] = names
+    return name in _ZERO_MEMBERS[key]
 
 
 def _add(eng, l: SObj, r: SObj, sub: bool):
